@@ -110,6 +110,12 @@ def cutoffTest (num den : Nat) (nb total : Nat) : Bool :=
   let c := if c0 < 0 || c0 > 1 then 0 else c0
   (c > 0 && Float.ofNat nb ≥ c * Float.ofNat total) || (c == 0 && nb > 0)
 
+/-- the same test without the reset of an out-of-range cutoff (`RemoveMajorityCharacterSites` does not
+reset it, unlike what its comment says; cutoffs outside [0,1] are outside the property's quantifier) -/
+def cutoffTestRaw (num den : Nat) (nb total : Nat) : Bool :=
+  let c := Float.ofNat num / Float.ofNat den
+  (c > 0 && Float.ofNat nb ≥ c * Float.ofNat total) || (c == 0 && nb > 0)
+
 /-- one step: new state and a status string (`ok`, `err`, `na`, with op-specific payload) -/
 def stepOp (b : Bag) : Op → Bag × String
   | .add n s => let r := addSeq b n s; (r.1, if r.2 then "err" else "ok")
